@@ -190,7 +190,11 @@ const PRIMS: &[&str] = &[
 ];
 
 fn ident(r: &mut Rng, prefix: &str) -> String {
-    const SYL: &[&str] = &["ka", "lo", "mi", "ne", "ru", "sa", "ti", "vo", "xe", "zu", "Ba", "De", "Fi", "Go", "Hu"];
+    // mostly ASCII; one in ten syllables is not (user code may use non-ASCII identifiers)
+    const SYL: &[&str] = &[
+        "ka", "lo", "mi", "ne", "ru", "sa", "ti", "vo", "xe", "zu", "Ba", "De", "Fi", "Go", "Hu", "ka", "lo", "mi", "ne", "ru", "sa", "ti", "vo", "xe", "zu", "Ba", "De", "Fi",
+        "Öl", "é", "ß", "ж",
+    ];
     let n = r.range(1, 3);
     let mut s = prefix.to_string();
     for _ in 0..n {
@@ -396,10 +400,18 @@ pub fn family_fmt(r: &mut Rng) -> Key {
     let name = ident(r, "Fm");
     let derive = *r.pick(&["Display", "Debug"]);
     let attr = if derive == "Display" { "display" } else { "debug" };
+    // synonymous spellings of the explicit-bounds attribute, before or after the format
+    let extra = match r.below(6) {
+        0 => format!("# [{attr} (bound ({} : Clone))] ", params[0]),
+        1 => format!("# [{attr} (bounds ({} : Clone))] ", params[0]),
+        2 => format!("# [{attr} (bound ({} : Clone , {} : Copy))] ", params[0], params[n - 1]),
+        _ => String::new(),
+    };
+    let (pre, post) = if r.chance(1, 2) { (extra, String::new()) } else { (String::new(), extra) };
     Key {
         derive: derive.into(),
         item: format!(
-            "# [{attr} (\"{}\")] struct {name} < {} > {{ {} }}",
+            "{pre}# [{attr} (\"{}\")] {post}struct {name} < {} > {{ {} }}",
             lit.join(" "),
             params.join(" , "),
             fields.join(" , ")
@@ -407,8 +419,53 @@ pub fn family_fmt(r: &mut Rng) -> Key {
     }
 }
 
-pub const N_FAMILIES: usize = 6;
-pub const FAMILY_NAMES: [&str; N_FAMILIES] = ["try_into", "from_str", "mul_like", "error", "from_into", "fmt_bounds"];
+/// `AsRef` / `AsMut` with type lists, forwarding and generic parameters (type and const).
+pub fn family_as_ref(r: &mut Rng) -> Key {
+    let n = scaled(r, 1, 4);
+    let name = ident(r, "Ar");
+    let tparam = r.chance(1, 2);
+    let cparam = r.chance(1, 2);
+    let cname = *r.pick(&["N", "LEN", "SIZE"]);
+    let mut gens = Vec::new();
+    if tparam {
+        gens.push("T".to_string());
+    }
+    if cparam {
+        gens.push(format!("const {cname} : usize"));
+    }
+    let mut fields = Vec::new();
+    for i in 0..n {
+        let ty = match r.below(6) {
+            0 => format!("[u8 ; {cname}]"), // a const parameter — or, without one, whatever `LEN` is in scope
+            1 if tparam => "T".to_string(),
+            2 if tparam => "Vec < T >".to_string(),
+            3 => "String".to_string(),
+            _ => r.pick(PRIMS).to_string(),
+        };
+        let attr = match r.below(7) {
+            0 => "# [as_ref] ",
+            1 => "# [as_ref (forward)] ",
+            2 => "# [as_ref ([u8])] ",
+            3 => "# [as_ref (str , [u8])] ",
+            4 if tparam => "# [as_ref (T)] ",
+            5 => "# [as_ref (skip)] ",
+            _ => "",
+        };
+        fields.push(format!("{attr}f{i} : {ty}"));
+    }
+    let g = if gens.is_empty() { String::new() } else { format!("< {} >", gens.join(" , ")) };
+    let top = *r.pick(&["", "", "# [as_ref (forward)] ", "# [as_ref (i32 , String)] "]);
+    let top = if n == 1 { top } else { "" };
+    let derive = *r.pick(&["AsRef", "AsMut"]);
+    let item = format!("{top}struct {name} {g} {{ {} }}", fields.join(" , "));
+    Key {
+        derive: derive.to_string(),
+        item: if derive == "AsMut" { item.replace("as_ref", "as_mut") } else { item },
+    }
+}
+
+pub const N_FAMILIES: usize = 7;
+pub const FAMILY_NAMES: [&str; N_FAMILIES] = ["try_into", "from_str", "mul_like", "error", "from_into", "fmt_bounds", "as_ref"];
 
 /// derives each family exercises (a hot session keeps to them)
 pub const FAMILY_DERIVES: [&[&str]; N_FAMILIES] = [
@@ -418,6 +475,7 @@ pub const FAMILY_DERIVES: [&[&str]; N_FAMILIES] = [
     &["Error"],
     &["From", "Into"],
     &["Display", "Debug", "Binary", "Octal", "LowerHex", "UpperHex", "LowerExp", "UpperExp", "Pointer"],
+    &["AsRef", "AsMut"],
 ];
 
 pub fn family(r: &mut Rng, which: usize) -> Key {
@@ -427,7 +485,8 @@ pub fn family(r: &mut Rng, which: usize) -> Key {
         2 => family_mul(r),
         3 => family_error(r),
         4 => family_from_into(r),
-        _ => family_fmt(r),
+        5 => family_fmt(r),
+        _ => family_as_ref(r),
     }
 }
 
@@ -437,6 +496,16 @@ pub fn family(r: &mut Rng, which: usize) -> Key {
 /// by name + arity, by span-less token shape) would confuse with the original.
 pub fn twin(key: &Key, r: &mut Rng) -> Option<Key> {
     let mut di: syn::DeriveInput = syn::parse_str(&key.item).ok()?;
+    if !di.generics.params.is_empty() && r.chance(1, 4) {
+        // the same item without its generic parameters: the names they introduced (`T`, `LEN`, `'a`) now
+        // refer to whatever is in scope — what state keyed by "names seen as parameters" would get wrong
+        di.generics = syn::Generics::default();
+        let item = di.to_token_stream().to_string();
+        return Some(Key {
+            derive: key.derive.clone(),
+            item,
+        });
+    }
     let how = r.below(5);
     let fresh = |r: &mut Rng, upper: bool| -> syn::Ident {
         let mut s = ident(r, if upper { "Q" } else { "q" });
